@@ -4,6 +4,12 @@ import json, subprocess
 
 CLAIMED = {
  # id: (level category, technique, text, note, design_ref)
+ "C01": ("model_checking", "symbolic execution of every decode entry point (bit-precise floats, tables as uninterpreted functions) + exhaustive ground table obligations decided by the SMT solver in exact integer arithmetic",
+         "Every decode entry point returns its package's table entry for all codes at once (wiring); all 3 x 65,792 table entries - built by the executor from the current SSA and bit-identical to the native build (checked each run) - are within 3e-7 of the published EOTF, with exact end points, strict monotonicity and T8[v]=T16[257v].",
+         "Trusted: executor, z3 (used as exact-arithmetic oracle for the ground part: that part is exhaustive evaluation, not search), the platform's math.Pow for concrete arguments. Oracle: IEC 61966-2-1, Adobe RGB (1998), ISO 22028-2 written algebraically.", "DESIGN.md 5 C01"),
+ "C02": ("model_checking", "bit-precise FP queries over all float32 values (z3/cvc5 portfolio), reals-with-rounding-error queries, uninterpreted-table wiring, exhaustive ground table obligations",
+         "Clamp/range/no-panic for every float32 bit pattern incl. NaN; monotonicity for all pairs; |N(x)-S*x| <= 0.5+s_N; encoders are LUT[N(x)] on both init paths and colour types use the right encoder; all 3 x 66,048 encode-table entries within 0.5+s_T codes of the published OETF.",
+         "Trusted: executor, solvers, IEEE-754 rounding model (|err| <= u|x|+eta, monotone) for the real-arithmetic parts, gc/amd64 float->int conversion model. Literal half-code reading is relaxed by the a-priori slacks of DESIGN 3.1.", "DESIGN.md 5 C02"),
  "C05": ("model_checking", "bounded symbolic execution of the real loaders (go/ssa -> SMT-LIB2 bit-vectors, z3)",
          "Every metadata field is proved equal to the container specification's bytes by an unsat verdict over all values of every symbolic header/payload byte of the skeleton files; bounded by skeleton shape (<=2 ancillary chunks/segments, payloads <=5 bytes).",
          "Trusted: go/ssa construction, the gosym executor (cross-validated natively on sampled path models each run), z3 4.8.12. Oracle is the PNG/JPEG/RIFF-WebP byte layout written in the harness, not DecodeConfig.", "DESIGN.md 5 C05"),
